@@ -40,6 +40,17 @@ func ParseDateTime(value string) (DateTime, error) {
 	value = strings.TrimPrefix(value, "@")
 	for _, l := range dateTimeLayouts {
 		if t, err = time.Parse(l, value); err == nil {
+			// time.Parse accepts a fraction after the seconds even when the layout
+			// has none (".5", ".123456"); keep it visible at millisecond precision
+			// instead of hiding it behind the second-precision layout.
+			if t.Nanosecond() != 0 {
+				switch l {
+				case dtSecondLayoutTZ:
+					return DateTime{t.Truncate(time.Millisecond), dtMillisecondLayoutTZ}, nil
+				case dtSecondLayout:
+					return DateTime{t.Truncate(time.Millisecond), dtMillisecondLayout}, nil
+				}
+			}
 			return DateTime{t, layout(l)}, nil
 		}
 	}
